@@ -8,6 +8,9 @@ Decided statically (DESIGN 4/C08):
   PARAMLIVE  an argument that some caller passes is honoured by the callee
              (Circuit.surround ignores bounding_region: known finding)
   CLOSURE    QuickPartitioner's bin blocking is transitive
+  BLOCKALL   every ordering event of the sweep (operation added to a bin,
+             barrier queued) is followed by a blocking sweep over all
+             active bins
   PARAMFLOW  re-wrapping an existing block carries the operation's params
 Block width bounds, dependency blocking and order preservation are
 algorithmic and not decided.
@@ -50,6 +53,7 @@ def run(ctx: Ctx, rep: Report) -> None:
     path(ctx, rep)
     paramlive(ctx, rep)
     closure(ctx, rep)
+    blockall(ctx, rep)
     drain(ctx, rep)
     rule_paramflow(
         ctx, rep, 'bqskit/passes/util/extend.py:ExtendBlockSizePass.run', {})
@@ -146,6 +150,88 @@ def closure(ctx: Ctx, rep: Report) -> None:
                 key='transitive',
             )
     rep.floor('CLOSURE', n, 1, 'bin-blocking sites in QuickPartitioner.run')
+
+
+def blockall(ctx: Ctx, rep: Report) -> None:
+    """BLOCKALL: every step of QuickPartitioner's sweep that orders a new
+    piece after existing bins -- an operation added to a bin
+    (`X.add_op(...)`) or a barrier queued as a `Bin` subclass
+    (`pending_bins.append(BarrierBin(...))`) -- is followed, before the
+    next operation is looked at, by a loop over *all* `active_bins` that
+    updates their `blocked_qudits`.  Blocking only the bins that touch the
+    new piece directly leaves a bin that precedes it through a chain of
+    other bins free to grow onto the new piece's qudits afterwards: a cycle
+    of bins none of which can be emitted."""
+    f = ctx.fn(PART + 'quick.py:QuickPartitioner.run')
+    g = ctx.cfg(f)
+    bins = {
+        c.name for c in ctx.index.classes.values()
+        if c.path == PART + 'quick.py' and (
+            c.name == 'Bin' or ctx.index.is_subclass(c, 'Bin'))
+    }
+
+    def is_sweep(m) -> bool:
+        if m.kind != 'for' or 'active_bins' not in {
+                norm(x) for x in ast.walk(m.stmt.iter)}:
+            return False
+        tg = {x.id for x in ast.walk(m.stmt.target)
+              if isinstance(x, ast.Name)}
+        for c in ast.walk(m.stmt):
+            if isinstance(c, ast.Call):
+                fn = norm(c.func)
+                if fn.endswith('.blocked_qudits.update') and fn.split(
+                        '.')[0] in tg:
+                    return True
+        return False
+    sweeps = g.ids(is_sweep)
+    back = {x.id for x in g.nodes if x.kind in ('for', 'while')} - sweeps
+    n = 0
+    for node in g.nodes:
+        if node.kind != 'stmt':
+            continue
+        what = recv = None
+        for c in node.calls():
+            fn = norm(c.func)
+            if fn.endswith('.add_op'):
+                what = f'{fn}(...)'
+                recv = fn[:-len('.add_op')]
+            elif fn == 'pending_bins.append' and len(c.args) == 1:
+                a = valnum.subst(ctx, f, node, c.args[0])
+                if isinstance(a, ast.Call) and norm(a.func) in bins:
+                    what = f'pending_bins.append({norm(a.func)}(...))'
+        if what is None:
+            continue
+        # only events inside the main sweep over the circuit
+        if node.loop_depth == 0:
+            continue
+        n += 1
+        rep.count()
+        succ = [x for x, _l in g.succ[node.id]]
+        # the next operation is looked at when control returns to a loop
+        # header that encloses the event
+        outer = {
+            h for h in back if node.id in g.in_loop_body(g.nodes[h])
+        }
+        ok = not (g.reach(succ, blocked=sweeps) & (outer | {g.exit}))
+        if not ok and recv is None and outer:
+            # a queued barrier changes no bin the sweep reads: a sweep
+            # earlier in the same iteration serves as well
+            inner = max(outer, key=lambda h: g.nodes[h].loop_depth)
+            first = [x for x, lab in g.succ[inner] if lab == 'iter']
+            ok = node.id not in g.reach(first, blocked=sweeps | {inner})
+        rep.check(
+            ok, 'BLOCKALL', f'QuickPartitioner.run:{what}', f.path,
+            node.lineno,
+            'followed by a blocked_qudits sweep over all active_bins',
+            f'`{what}` orders a new piece after existing bins, but control '
+            'can return to the next operation without a loop over '
+            '`active_bins` that updates `blocked_qudits`: a bin that '
+            'precedes the new piece only through other bins may still '
+            'grow onto its qudits, and the bins then wait for each other '
+            '("Unable to process all pending bins")',
+            key='sweep',
+        )
+    rep.floor('BLOCKALL', n, 2, 'ordering events in QuickPartitioner.run')
 
 
 def partitioners(ctx: Ctx) -> list[ClassInfo]:
